@@ -211,7 +211,8 @@ impl Mul for &LazyBigint {
             ),
             (LazyBigint::Short(s), LazyBigint::Long(b))
             | (LazyBigint::Long(b), LazyBigint::Short(s)) => {
-                LazyBigint::Long(assert_is_long(b * s))
+                // not always long: 2**63 * -1 is i64::MIN again
+                LazyBigint::from(b * s)
             }
             (LazyBigint::Long(b0), LazyBigint::Long(b1)) => {
                 LazyBigint::Long(assert_is_long(b0 * b1))
